@@ -488,6 +488,11 @@ class DeepCopyMethod(MethodDescriptor):
             return self
         new = self.__class__.__new__(self.__class__)
         for attr, value in self.__dict__.items():
+            if attr == "__spec_class_initializing__":
+                # A copy made while `self` is still being initialised (e.g. in
+                # `__post_init__`) is itself complete, and must not stay
+                # writable forever if the class is frozen.
+                continue
             if inspect.ismethod(value) and value.__self__ is self:
                 # Copying the bound method would recurse back into `self`;
                 # re-bind the underlying function to the copy instead.
